@@ -91,6 +91,33 @@ RING = {
     'r-C=C-dn': 'rule ccdn{ reactant r1{ C labeled c1 C labeled c2 double bond to c1 } increase number of radical (c1) '
                 'increase number of radical (c2) decrease bond order (c1,c2) }',
 }
+def _scission(name, a1, a2):
+    return ('rule %s{ reactant r1{ %s labeled c1 %s labeled c2 single bond to c1 } increase number of radical (c1) '
+            'increase number of radical (c2) break bond(c1,c2) }' % (name, a1, a2))
+
+
+# RING rules whose reactant pattern is NOT symmetric in what it asks of its atoms (a radical centre next to a closed-shell
+# carbon, a carbon bearing an oxygen next to one that need not) or that restrict an atom by a prefix (ring / chain / aromatic /
+# allylic): the pattern maps onto one set of atoms in two ways of which one is accepted, or onto atoms the prefix excludes
+RING_ORIENTED = {
+    'r-radCC-sc': _scission('radccsc', 'C.', 'C'),
+    'r-aO-CC-sc': _scission('aoccsc', 'C', 'C').replace('C labeled c1', 'C labeled c1 {connected to >=1 O with single bond}'),
+    'r-side-CC-sc': _scission('sidesc', 'ringatom C', 'nonringatom C'),
+    'r-chain-CH-sc': _scission('chainchsc', 'nonringatom C', 'H'),
+    'r-ring-CH-sc': _scission('ringchsc', 'ringatom C', 'H'),
+    'r-aliph-CH-sc': _scission('aliphchsc', 'nonaromatic C', 'H'),
+    'r-allyl-CH-sc': _scission('allylchsc', 'allylic C', 'H'),
+    'r-in3ring-CC-sc': _scission('ring3sc', 'C', 'C').replace('C labeled c1', 'C labeled c1 {in ring of size 3}'),
+}
+RING.update(RING_ORIENTED)
+# (seeds, rule names): species with ring / aromatic / allylic atoms, radicals and alcohols written from either end
+ORIENTED = [
+    (['C[CH2]'], ['r-radCC-sc']), (['[CH2]C'], ['r-radCC-sc']), (['CC[CH2]'], ['r-radCC-sc', 'r-CH-sc']), (['CCO'], ['r-aO-CC-sc']),
+    (['OCC'], ['r-aO-CC-sc']), (['CCCO'], ['r-aO-CC-sc', 'r-OH-sc']), (['CC1CC1'], ['r-side-CC-sc']), (['CC1CC1'], ['r-chain-CH-sc']),
+    (['C1CC1C'], ['r-ring-CH-sc']), (['Cc1ccccc1'], ['r-aliph-CH-sc']), (['CC=C'], ['r-allyl-CH-sc']), (['C=CC'], ['r-allyl-CH-sc', 'r-radCC-sc']),
+    (['CC1CC1'], ['r-in3ring-CC-sc', 'r-side-CC-sc']), (['CCC1CC1'], ['r-side-CC-sc', 'r-radCC-sc']), (['C1CCC1'], ['r-chain-CH-sc', 'r-CC-sc']),
+    (['CC(O)C'], ['r-aO-CC-sc', 'r-radCC-sc']), (['OC(C)C'], ['r-aO-CC-sc']), (['CC[CH]C'], ['r-radCC-sc']),
+]
 BIMOLECULAR = '[C:1].[C:2]>>[C:1][C:2]'
 NO_TEMPLATE = '>>[C:1]'
 
@@ -437,6 +464,104 @@ def check_case(ctx, seeds, rule_names, batch, form=None):
             soft_fail(ctx, 'A-canon', 'renumbered copy of %s is not recognised as the same species' % k)
 
 
+def respellings(rng, smi, k=2):
+    """the same species written with its atoms in other orders (the reversed order first, then random ones); only spellings
+    RDKit reads back as the same species (same canonical key of the prepared seed) are returned"""
+    Chem = rd()
+    m = Chem.MolFromSmiles(smi)
+    if m is None or m.GetNumAtoms() < 2:
+        return []
+    ref = key(prep_seed(smi))
+    n = m.GetNumAtoms()
+    orders = [list(reversed(range(n)))]
+    for _ in range(k - 1):
+        o = list(range(n))
+        rng.shuffle(o)
+        orders.append(o)
+    out = []
+    for o in orders:
+        try:
+            s2 = Chem.MolToSmiles(Chem.RenumberAtoms(m, o), canonical=False)
+            if s2 != smi and s2 not in out and key(prep_seed(s2)) == ref:
+                out.append(s2)
+        except Exception:
+            continue
+    return out
+
+
+def spelling_independence(ctx, seeds, rule_names, inp):
+    """The closure is a function of the seed SPECIES: the same seeds written with their atoms in another order (SMILES text or
+    renumbered Mol object) must give the same species, each once."""
+    Chem, rng = rd(), ctx.rng
+    texts = [rule_text(n) for n in rule_names]
+    st0, k0 = run_impl(list(seeds), list(texts))
+    alts = [respellings(rng, s) for s in seeds]
+    if not any(alts):
+        return
+    for j in range(max(len(a) for a in alts)):
+        seeds2 = [a[j % len(a)] if a else s for s, a in zip(seeds, alts)]
+        as_mol = rng.random() < 0.3
+        st1, k1 = run_impl([Chem.MolFromSmiles(x) for x in seeds2] if as_mol else list(seeds2), list(texts))
+        ctx.count('respelled_seed_runs')
+        ctx.case(None)
+        if st0 != st1 or (st0 == 'ok' and sorted(k0) != sorted(k1)) or (st0 != 'ok' and k0 != k1):
+            ctx.violation('the network depends on the order in which the atoms of a seed are written', dict(inp, seeds_respelled=seeds2, respelled_as='mol' if as_mol else 'smiles'),
+                          expected={'status': st0, 'species': sorted(k0) if st0 == 'ok' else k0},
+                          observed={'status': st1, 'species': sorted(k1) if st1 == 'ok' else k1,
+                                    'missing': sorted(set(k0) - set(k1)) if st0 == st1 == 'ok' else None,
+                                    'extra': sorted(set(k1) - set(k0)) if st0 == st1 == 'ok' else None})
+            return
+
+
+def run_env_children(ctx, cases):
+    """a sample of networks again in child interpreters started with -O and with -W error (harness/lib_envchild.py): the
+    returned list must be the one of this process (which the oracle above compared with the independent closure)"""
+    import subprocess, os
+    from . import lib_envchild as EC
+    if not cases or ctx.time_left() < 90:
+        ctx.count('env_children_not_run')
+        return
+    reqf = os.path.join(ctx.scratch, 'c17_env_requests.jsonl')
+    refs = []
+    with open(reqf, 'w') as f:
+        f.write(json.dumps({'op': 'hello'}) + '\n')
+        for seeds, names in cases:
+            texts = [rule_text(n) for n in names]
+            refs.append(run_impl(list(seeds), list(texts)))
+            f.write(json.dumps({'op': 'net', 'seeds': list(seeds), 'rules': texts}) + '\n')
+    modes = ['O', 'Werror'] + (['OO+hash'] if ctx.thorough() else [])
+    procs = [(mode, os.path.join(ctx.scratch, 'c17_env_%s.jsonl' % mode.replace('+', '_'))) for mode in modes]
+    procs = [(mode, outf, EC.spawn_batch(mode, reqf, outf)) for mode, outf in procs]
+    for mode, outf, p in procs:
+        try:
+            p.wait(timeout=max(60, ctx.time_left() - 30))
+        except subprocess.TimeoutExpired:
+            p.kill()
+            raise common.MachineryError('the %s child interpreter did not finish in time' % mode)
+        lines = [json.loads(l) for l in open(outf)]
+        if len(lines) != len(cases) + 1:
+            raise common.MachineryError('the %s child interpreter answered %d of %d requests (exit %r)' % (mode, len(lines), len(cases) + 1, p.returncode))
+        if lines[0].get('asserts') != (mode == 'Werror'):
+            raise common.MachineryError('child interpreter %s: assert statements %s' % (mode, lines[0].get('asserts')))
+        ctx.count('env_child_%s_networks' % mode, len(cases))
+        bad = 0
+        for (seeds, names), ref, rep in zip(cases, refs, lines[1:]):
+            if 'childerror' in rep:
+                raise common.MachineryError('child interpreter (%s) failed: %s' % (mode, rep['childerror']))
+            got = (rep['status'], rep['keys'])
+            if got != ref:
+                env = {'mode': mode, 'argv': EC.MODES[mode]['argv'], 'env': EC.MODES[mode]['env']}
+                ctx.violation('the network depends on the environment of the process (%s)' % json.dumps(env, sort_keys=True),
+                              {'seeds': list(seeds), 'rules': [rule_text(n) for n in names], 'rule_names': list(names), 'env': env},
+                              expected={'status': ref[0], 'species': ref[1]},
+                              observed={'status': got[0], 'species': got[1],
+                                        'extra': sorted(set(got[1]) - set(ref[1])) if got[0] == ref[0] == 'ok' else None,
+                                        'missing': sorted(set(ref[1]) - set(got[1])) if got[0] == ref[0] == 'ok' else None})
+                bad += 1
+                if bad >= 3:
+                    break
+
+
 def error_cases(ctx, batch):
     """the error outcomes of the model against the code (tie only; outside the property's quantifier)"""
     Chem = rd()
@@ -544,9 +669,17 @@ def run(ctx):
         for seeds in (['CC'], ['CO'], ['C=C']):
             check_case(ctx, seeds, [name], batch)
     check_case(ctx, ['CCO'], ['r-XH-sc', 'CC-sc'], batch)      # RING text and SMARTS mixed in one rule list
+    env_cases = []
+    if ring:
+        for seeds, rules in ORIENTED:
+            check_case(ctx, seeds, rules, batch)
+            env_cases.append((seeds, rules))
+    for seeds, rules in DESIGNED + (ORIENTED if ring else []):
+        if ring or not any(r in RING for r in rules):
+            spelling_independence(ctx, seeds, rules, {'seeds': list(seeds), 'rules': [rule_text(n) for n in rules], 'rule_names': list(rules)})
     error_cases(ctx, batch)
     shared_rule_lists(ctx, ring)
-    for _ in range(ctx.n(500, 6000)):
+    for i in range(ctx.n(500, 6000)):
         if ctx.time_left() < 120:
             ctx.count('stopped_for_time')
             break
@@ -555,6 +688,11 @@ def run(ctx):
             break
         seeds, rules = random_case(rng, ring)
         check_case(ctx, seeds, rules, batch)
+        if i % 5 == 0:
+            spelling_independence(ctx, seeds, rules, {'seeds': list(seeds), 'rules': [rule_text(n) for n in rules], 'rule_names': list(rules)})
+        if i % 8 == 0 and len(env_cases) < ctx.n(80, 400) and 'ring-q' not in rules:
+            env_cases.append((seeds, rules))
+    run_env_children(ctx, env_cases)
     compare_batch(ctx, batch)
     fails = ctx.extra.pop('_assumption_failures', [])
     if fails and not ctx.violations:
@@ -578,6 +716,24 @@ def replay(ctx, rec, batch=None):
     names = inp.get('rule_names') or inp['rules']
     for form in ('smiles', 'mol'):
         check_case(ctx, list(inp['seeds']), list(names), b, form=form)
+    if 'seeds_respelled' in inp:
+        Chem = rd()
+        texts = [rule_text(n) for n in names]
+        st0, k0 = run_impl(list(inp['seeds']), list(texts))
+        s2 = [Chem.MolFromSmiles(x) for x in inp['seeds_respelled']] if inp.get('respelled_as') == 'mol' else list(inp['seeds_respelled'])
+        st1, k1 = run_impl(s2, list(texts))
+        if st0 != st1 or (st0 == 'ok' and sorted(k0) != sorted(k1)) or (st0 != 'ok' and k0 != k1):
+            ctx.violation('the network depends on the order in which the atoms of a seed are written', inp, expected=[st0, k0], observed=[st1, k1])
+    if 'env' in inp:
+        from . import lib_envchild as EC
+        texts = [rule_text(n) for n in names]
+        ref = run_impl(list(inp['seeds']), list(texts))
+        child = EC.EnvChild(inp['env']['mode'])
+        rep = child.ask({'op': 'net', 'seeds': list(inp['seeds']), 'rules': texts})
+        child.close()
+        if (rep.get('status'), rep.get('keys')) != ref:
+            ctx.violation('the network depends on the environment of the process (%s)' % json.dumps(inp['env'], sort_keys=True), inp,
+                          expected=list(ref), observed=[rep.get('status'), rep.get('keys')])
     return len(ctx.violations) == before
 
 
